@@ -1,9 +1,9 @@
-SPECIFICATION TraceSpec
+SPECIFICATION Spec
 CONSTANTS
-  Cmds <- TCmds
-  Kind <- TKind
-  Name <- TName
-  Bind <- TBind
+  Cmds <- C6
+  Kind <- Kind6
+  Name <- Name6
+  Bind <- Bind6
   MayFail = TRUE
   AtomicInstall = TRUE
   CheckOnRollout = TRUE
@@ -12,5 +12,7 @@ INVARIANTS
   O_Ownership
   O_FailedLeavesNothing
   O_NoLeak
-POSTCONDITION Accepted
-CHECK_DEADLOCK FALSE
+PROPERTIES
+  A_RefusalJustified
+  A_FailChangesNothing
+CHECK_DEADLOCK TRUE
